@@ -1,13 +1,17 @@
 #!/bin/bash
 # try_mutant.sh <patch.diff> <Cxx> [check args...]: apply a seeded change to /repo, run the check, undo the change.
+# If <patch>.diff no longer applies to /repo's HEAD (later fix: commits), <patch>.rebased.diff next to it is used.
 set -u
 PATCH="$(readlink -f "$1")"; PROP="$2"; shift 2
 cd /repo || exit 9
-if [ -n "$(git status --porcelain -- seismic_zfp)" ]; then echo "repo not clean"; exit 9; fi
-git apply "$PATCH" 2>/dev/null || git apply --3way "$PATCH" || { echo "PATCH DOES NOT APPLY"; git checkout -- . ; exit 8; }
-git reset -q 2>/dev/null
+if [ -n "$(git status --porcelain)" ]; then echo "repo not clean"; exit 9; fi
+if ! git apply --check "$PATCH" 2>/dev/null; then
+  R="${PATCH%.diff}.rebased.diff"
+  if [ -f "$R" ] && git apply --check "$R" 2>/dev/null; then PATCH="$R"; else echo "PATCH DOES NOT APPLY"; exit 8; fi
+fi
+git apply "$PATCH" || { git reset -q --hard HEAD; exit 8; }
 cd /verif
 ./bin/check "$PROP" "$@"; rc=$?
-git -C /repo checkout -- .
-echo "try_mutant: exit=$rc"
+git -C /repo reset -q --hard HEAD
+echo "try_mutant: exit=$rc ($(basename $PATCH))"
 exit $rc
